@@ -567,4 +567,8 @@ def build():
                           z3.Implies(D(a_, b_), z3.Or(z3.Select(a_, k0) == none, z3.Select(a_, k0) == z3.Select(b_, k0))))
             return [], goal
         lem.append(Lemma(f"{nm}-rules", [("all", all_)], PB))
+    world.trusted_notes.append('legacy heap model: the registry and the four per-node slots are five ghost maps; node.id is a function of the node (id-rewriting operations are outside this area)')
+    world.trusted_notes.append('get_child_nodes and get_child_nodes_with_field enumerate the same child nodes (lkids / lkidsf, is_child_of)')
+    world.trusted_notes.append("subtree_has_id is any predicate closed under 'the node's own id' and 'the ids of its children's subtrees' (closure axioms used in the only_subtree_ids_changed lemma); acyclic_ids is stated with it")
+    world.trusted_notes.append("shrinks_* / extends_n / only_subtree_ids_changed / all_parent_ids_cleared enter function VCs only through consequences proved as quantified lemmas (z3) and instantiated at the VC's key terms")
     return world, lib, reg, lem
